@@ -147,7 +147,7 @@ type stop int
 const (
 	goOn stop = iota
 	halted
-	failed     // instruction failed: error or catch
+	failed // instruction failed: error or catch
 	undefined
 )
 
